@@ -40,6 +40,20 @@ def install(sim, fs=None):
         self._sim_task = t
 
     patch(dulprovider.DULServiceProvider, 'start', start)
+
+    # the provider IS a threading.Thread: whatever asks it whether it runs, or waits for it,
+    # must see the simulated thread
+    def is_alive(self):
+        t = getattr(self, '_sim_task', None)
+        return t is not None and not t.done
+
+    def join(self, timeout=None):
+        t = getattr(self, '_sim_task', None)
+        if t is not None:
+            sim.wait(lambda: t.done, timeout, 'join')
+
+    patch(dulprovider.DULServiceProvider, 'is_alive', is_alive)
+    patch(dulprovider.DULServiceProvider, 'join', join)
     patch(dulprovider, 'select', simnet.SelectNS(sim))
     tns = simnet.TimeNS(sim)
     patch(dulprovider, 'time', tns)
